@@ -1,5 +1,6 @@
 """C05 — decap and the peek are total; consumed length bounded and progressing."""
 from framework import *
+FLOOR_R1, FLOOR_R2, FLOOR_R4 = 2000, 20, 40       # basic blocks interpreted (about a third of what the pinned tree gives)
 
 
 def run(ck):
@@ -7,7 +8,7 @@ def run(ck):
     # R1: PANIC over decap (+ inlined decap_*, walker, Label::new, Extension::new ...)
     a = ck.analyse(DEC + 'decap', decap_cfg(f))
     n = ck.count_obligations(a.obligations(), 'C05.R1')
-    ck.rule('C05.R1 panic-freedom of decap (abstract interpretation)', n, 60)
+    ck.panic_rule('C05.R1 panic-freedom of decap (abstract interpretation)', n, [a], FLOOR_R1)
     reached = a.I.stats['functions']
     for need in ('read_gse_header',):
         if not any(short(x) == need for x in reached):
@@ -15,14 +16,16 @@ def run(ck):
     # R4: the peek
     p = ck.analyse(DEC + 'get_label_or_frag_id', {'kslots': 2})
     n = ck.count_obligations(p.obligations(), 'C05.R4')
-    ck.rule('C05.R4 panic-freedom of get_label_or_frag_id', n, 6)
+    ck.panic_rule('C05.R4 panic-freedom of get_label_or_frag_id', n, [p], FLOOR_R4)
     # R2: bundled memory, with its struct invariant
     inv = mem_invariant(f)
     tot = 0
+    ams = []
     for m in ('provision_storage', 'new_pdu', 'new_frag', 'take_frag', 'save_frag'):
         am = ck.analyse(MEM + m, {'kslots': 4}, assume=inv)
+        ams.append(am)
         tot += ck.count_obligations(am.obligations(), 'C05.R2')
-    ck.rule('C05.R2 panic-freedom of SimpleGseMemory methods', tot, 3)
+    ck.panic_rule('C05.R2 panic-freedom of SimpleGseMemory methods', tot, ams, FLOOR_R2)
     # R3: consumed length
     buf = a.arg('buffer')
     blen = buf[3]
